@@ -153,6 +153,7 @@ func (c *IPClient) measureClockOffsetIP(ctx context.Context, mtrcs *ipClientMetr
 	ntpreq.SetVersion(ntp.VersionMax)
 	ntpreq.SetMode(ntp.ModeClient)
 	if c.InterleavedMode && reference == c.prev.reference &&
+		c.prev.cRxTime != c.prev.cTxTime && // otherwise indistinguishable from a basic request
 		cTxTime0.Sub(ntp.TimeFromTime64(c.prev.cTxTime, cTxTime0)) <= 3*time.Second {
 		interleavedReq = true
 		ntpreq.OriginTime = c.prev.sRxTime
